@@ -83,11 +83,11 @@ func (s *store) close() {
 type cond int
 
 const (
-	cNone      cond = iota
-	cNotExists      // expected version -1
-	cCurrent        // the version the key has when the request is built
-	cStale          // a version the key does not have
-	cImpossible     // -2: below "not exists", a version no record can have
+	cNone       cond = iota
+	cNotExists       // expected version -1
+	cCurrent         // the version the key has when the request is built
+	cStale           // a version the key does not have
+	cImpossible      // -2: below "not exists", a version no record can have
 )
 
 var condName = []string{"", ",if=-1", ",if=current", ",if=stale", ",if=-2"}
@@ -257,6 +257,8 @@ func preloadOps() []opD {
 		R(first100).and(R(all101)),
 		P("k101", cNone).and(P("k102", cNone)).and(R(rangeD{"k002", "k103"})),
 		D("k100", cNone).and(R(all101)),
+		R(rangeD{"k050", ""}), // open-ended, 51 keys: per-key path
+		R(rangeD{"k000", ""}), // open-ended, 101 keys: range-tombstone path
 	)
 	return o
 }
@@ -276,6 +278,7 @@ func reducedOps() []opD {
 type config struct {
 	name       string
 	preload    int
+	preloadKey func(i int) string // nil = pk
 	reopenEach bool
 	ops        []opD
 	nBFS       int // ops[:nBFS] is the BFS alphabet; the rest is only used by the cross-product sweep
@@ -303,13 +306,20 @@ type inst struct {
 
 func viol(key, msg string) *ev.Violation { return &ev.Violation{Key: key, Message: msg} }
 
+func (c *config) keyOf(i int) string {
+	if c.preloadKey != nil {
+		return c.preloadKey(i)
+	}
+	return pk(i)
+}
+
 func newInst(cfg *config) *inst {
 	in := &inst{cfg: cfg, st: newStore(), m: map[string]*mrec{}, maxVer: -1}
 	in.db = in.st.open()
 	if cfg.preload > 0 {
 		var o opD
 		for i := 0; i < cfg.preload; i++ {
-			o.puts = append(o.puts, putD{pk(i), cNone})
+			o.puts = append(o.puts, putD{cfg.keyOf(i), cNone})
 		}
 		if _, v := in.applyOp(o); v != nil {
 			panic("preload failed: " + v.Message)
@@ -349,8 +359,10 @@ func (in *inst) resolve(key string, c cond) (*int64, bool) {
 	return nil, true
 }
 
+// an empty end bound is "no upper bound", as for list and range scan (the engine's iterators leave the upper
+// bound open for it and the per-key path of delete-range follows them)
 func inRange(k string, r rangeD) bool {
-	return compare.CompareWithSlash([]byte(r.start), []byte(k)) <= 0 && compare.CompareWithSlash([]byte(k), []byte(r.end)) < 0
+	return compare.CompareWithSlash([]byte(r.start), []byte(k)) <= 0 && (r.end == "" || compare.CompareWithSlash([]byte(k), []byte(r.end)) < 0)
 }
 
 func (in *inst) Step(op int) (bool, *ev.Violation) {
@@ -685,7 +697,7 @@ func sweep(run *ev.Run, cfg *config, nSingles int, deadline time.Time) {
 	}
 }
 
-func universeOf(ops []opD, preload int) []string {
+func universeOf(ops []opD, preload int, keyOf func(int) string) []string {
 	set := map[string]bool{}
 	for _, o := range ops {
 		for _, p := range o.puts {
@@ -696,7 +708,7 @@ func universeOf(ops []opD, preload int) []string {
 		}
 	}
 	for i := 0; i < preload; i++ {
-		set[pk(i)] = true
+		set[keyOf(i)] = true
 	}
 	var u []string
 	for k := range set {
@@ -728,6 +740,21 @@ func buildConfigs(tier string) []*config {
 		c.depth = 4
 	}
 	cfgs = append(cfgs, c)
+	// the same threshold with hierarchical keys, which sort after the internal records: an open-ended range
+	// above them is not split around the internal block and reaches the engine as it is
+	qk := func(i int) string { return fmt.Sprintf("q/%03d", i) }
+	c = &config{name: "preload-101-hierarchical-keys", preload: 101, preloadKey: qk, depth: 1, sweepDepth: -1, ops: []opD{
+		R(rangeD{"q/050", ""}),      // open-ended, 51 keys: per-key path
+		R(rangeD{"q/000", ""}),      // open-ended, 101 keys: range-tombstone path
+		R(rangeD{"q/000", "q/101"}), // bounded, 101 keys
+		R(rangeD{"q/001", "q/101"}), // bounded, 100 keys
+		P("q/050", cCurrent), D("q/000", cNone),
+	}}
+	c.nBFS = len(c.ops)
+	if !quick {
+		c.depth = 2
+	}
+	cfgs = append(cfgs, c)
 	c = &config{name: "empty/reopen-before-every-step", reopenEach: true, ops: base, nBFS: len(base), depth: 2, sweepDepth: -1}
 	if !quick {
 		c.depth = 3
@@ -739,7 +766,7 @@ func buildConfigs(tier string) []*config {
 		cfgs = append(cfgs, c)
 	}
 	for _, c := range cfgs {
-		c.universe = universeOf(c.ops, c.preload)
+		c.universe = universeOf(c.ops, c.preload, c.keyOf)
 	}
 	return cfgs
 }
